@@ -162,19 +162,41 @@ def c05_check():
 
 
 def repeated_output_matrix():
-    """Directed: requests that repeat one blinded message among their outputs - as identical copies and with another amount - in
-    a swap and in a mint, each followed by the corrected request with the same inputs / on the same quote."""
+    """Directed: requests that repeat one blinded message among their outputs - as identical copies, with another amount, and
+    spelled in upper-case hex (another string for the same point) - in a swap and in a mint, each followed by the corrected request
+    with the same inputs / on the same quote."""
     fund = [{"op": "mintquote", "amt": 13}, {"op": "settle", "q": "mq1"}, {"op": "mint", "q": "mq1", "outs": [{"amt": 8}, {"amt": 4}, {"amt": 1}]}]
     look = [{"op": "checkstate", "ys": ["b1", "b2", "b3"]}, {"op": "balances"}]
     hs = []
     for http in (False, True):
-        for second in ({"amt": 4, "b": "b4"}, {"amt": 2, "b": "b4"}):
-            rest = [{"amt": 8 - 4 - second["amt"]}] if 8 - 4 - second["amt"] > 0 else []
-            ops = fund + [{"op": "swap", "ins": [{"p": "b1"}], "outs": [{"amt": 4}, second] + rest}] + look + \
-                [{"op": "swap", "ins": [{"p": "b1"}], "outs": [{"amt": 4}, {"amt": 4}]}] + look + \
+        for amt2, form in ((4, ""), (2, ""), (4, "upper"), (2, "upper")):
+            n = [3]   # outputs registered so far (b1..b3 by the funding mint)
+
+            def fresh(amt):
+                n[0] += 1
+                return {"amt": amt}
+
+            def repeat(of, amt):
+                o = {"amt": amt, "b": "b%d" % of}
+                if form:
+                    o["form"] = form
+                    n[0] += 1     # an upper-case spelling is registered as an output of its own
+                return o
+
+            def request():
+                first = fresh(4)
+                k = n[0]
+                outs = [first, repeat(k, amt2)]
+                if 8 - 4 - amt2 > 0:
+                    outs.append(fresh(8 - 4 - amt2))
+                return outs
+
+            ops = fund + [{"op": "swap", "ins": [{"p": "b1"}], "outs": request()}] + look + \
+                [{"op": "swap", "ins": [{"p": "b1"}], "outs": [fresh(4), fresh(4)]}] + look + \
                 [{"op": "mintquote", "amt": 8}, {"op": "settle", "q": "mq2"}, {"op": "pollmint", "q": "mq2"},
-                 {"op": "mint", "q": "mq2", "outs": [{"amt": 4}, dict(second, b="b8")] + rest}, {"op": "pollmint", "q": "mq2"},
-                 {"op": "mint", "q": "mq2", "outs": [{"amt": 4}, {"amt": 4}]}] + look
+                 {"op": "mint", "q": "mq2", "outs": request()}, {"op": "pollmint", "q": "mq2"},
+                 {"op": "mint", "q": "mq2", "outs": [fresh(4), fresh(4)]}] + look + \
+                [{"op": "restore", "bs": ["b%d" % i for i in range(1, n[0] + 1)]}]
             hs.append({"fee": 0, "mpp": False, "policy": "min1", "probe": "passive", "http": http, "ops": ops})
     return hs
 
